@@ -69,7 +69,7 @@ def rule_W(rep, cd):
 
 def rule_M(rep, db):
     rep.rule("M1", "no local or parameter is read or moved again after being consumed by std::move / std::forward / "
-                   "move_if_rvalue (flow-sensitive, constructor initialisers included)", floor=300)
+                   "move_if_rvalue (flow-sensitive, constructor initialisers included)", floor=200)
     rep.rule("M2", "storage reached through a forwarding reference is only moved through std::forward / "
                    "move_if_rvalue / move_iterator_if_rvalue, never through a raw std::move", floor=100)
     seen = set()
